@@ -703,6 +703,69 @@ def _first_evaluated(stmt: ast.stmt, target: ast.Name) -> bool:
     return state["found"] and not state["bad"]
 
 
+def fold_new_fill_loops(tree: ast.Module, relpath: str) -> int:
+    """`A = []` immediately followed by `for v in IT: [if C: ...] A.append(E)` where A is a local that does not exist on the reference
+    tree, the loop body is nothing but that (possibly guarded) append, A is not mentioned elsewhere in the loop and v nowhere else in the
+    function: the pair is rewritten to `A = [E for v in IT if C]`.  Same elements, same evaluation order, same
+    exceptions; it is the exact inverse of "write the comprehension as a loop" (the adjacent-temp step then folds `x = A`)."""
+    all_units = localnames.reference().get("__units__", {}).get(relpath)
+    if all_units is None:
+        return 0
+    ref = localnames.reference().get(relpath) or {}
+    done = 0
+    for q, fn in localnames.units(tree):
+        if q not in all_units:
+            continue
+        known = {w[0] for w in ref.get(q, [])}
+        new = set(localnames.locals_of(fn)) - known
+        if not new:
+            continue
+        counts = {}
+        for n in ast.walk(fn):
+            if isinstance(n, ast.Name):
+                counts[n.id] = counts.get(n.id, 0) + 1
+        for parent in ast.walk(fn):
+            for fld in ("body", "orelse", "finalbody"):
+                blk = getattr(parent, fld, None)
+                if not (isinstance(blk, list) and blk and isinstance(blk[0], ast.stmt)) or isinstance(parent, (ast.Lambda, ast.IfExp)):
+                    continue
+                i = 0
+                while i + 1 < len(blk):
+                    a, lp = blk[i], blk[i + 1]
+                    i += 1
+                    if not (isinstance(a, ast.Assign) and len(a.targets) == 1 and isinstance(a.targets[0], ast.Name) and a.targets[0].id in new
+                            and isinstance(a.value, ast.List) and not a.value.elts):
+                        continue
+                    acc = a.targets[0].id
+                    if not (isinstance(lp, ast.For) and not lp.orelse and isinstance(lp.target, ast.Name) and lp.target.id != acc):
+                        continue
+                    var = lp.target.id
+                    conds = []
+                    body = lp.body
+                    while len(body) == 1 and isinstance(body[0], ast.If) and not body[0].orelse:
+                        conds.append(body[0].test)
+                        body = body[0].body
+                    if not (len(body) == 1 and isinstance(body[0], ast.Expr) and isinstance(body[0].value, ast.Call) and isinstance(body[0].value.func, ast.Attribute)
+                            and body[0].value.func.attr == "append" and isinstance(body[0].value.func.value, ast.Name) and body[0].value.func.value.id == acc
+                            and len(body[0].value.args) == 1 and not body[0].value.keywords):
+                        continue
+                    elt = body[0].value.args[0]
+                    parts = [elt, lp.iter, *conds]
+                    if any(isinstance(x, ast.Name) and x.id == acc for p_ in parts for x in ast.walk(p_)):
+                        continue
+                    if any(isinstance(x, (ast.Yield, ast.YieldFrom, ast.Await, ast.NamedExpr, ast.Lambda)) for p_ in parts for x in ast.walk(p_)):
+                        continue
+                    inside = sum(1 for x in ast.walk(lp) if isinstance(x, ast.Name) and x.id == var)
+                    if counts.get(var, 0) != inside:
+                        continue  # the loop variable is read after the loop: a comprehension would not leak it
+                    comp = ast.ListComp(elt=elt, generators=[ast.comprehension(target=lp.target, iter=lp.iter, ifs=conds, is_async=0)])
+                    a.value = ast.copy_location(comp, a.value)
+                    blk.remove(lp)
+                    done += 1
+        ast.fix_missing_locations(fn)
+    return done
+
+
 def inline_adjacent_temps(tree: ast.Module, relpath: str) -> int:
     """`T = E` immediately followed (same block) by the only statement that reads T, where T does not exist on the reference tree, every
     binding of T in the function has that form, and T is the first thing the next statement evaluates: the pair is rewritten to the next
@@ -717,7 +780,7 @@ def inline_adjacent_temps(tree: ast.Module, relpath: str) -> int:
         if q not in all_units:
             continue
         known = {w[0] for w in ref.get(q, [])}
-        for _round in range(6):
+        for _round in range(400):
             cur = set(localnames.locals_of(fn))
             new = cur - known
             if not new:
@@ -774,16 +837,23 @@ def _txt(n) -> str:
 def spelling_record(fn: ast.FunctionDef) -> dict:
     """What the reference keeps per function: the texts of its ordered comparisons, augmented assignments and if-tests."""
     cmps, augs, ifs, mms = set(), set(), set(), set()
+    ifexps, ifstmts, chains, whiles = set(), set(), set(), set()
     for n in ast.walk(fn):
         if isinstance(n, ast.Compare) and len(n.ops) == 1 and type(n.ops[0]) in _MIRROR:
             cmps.add(_txt(n))
+        elif isinstance(n, ast.Compare) and len(n.ops) == 2:
+            chains.add(_txt(n))
         elif isinstance(n, ast.AugAssign):
             augs.add(_txt(n))
         elif isinstance(n, (ast.If, ast.IfExp)):
             ifs.add(_txt(n.test))
+            (ifstmts if isinstance(n, ast.If) else ifexps).add(_txt(n.test) if isinstance(n, ast.If) else _txt(n))
+        elif isinstance(n, ast.While) and not isinstance(n.test, ast.Constant):
+            whiles.add(_txt(n.test))
         elif _is_minmax2(n):
             mms.add(_txt(n))
-    return {"cmp": sorted(cmps), "aug": sorted(augs), "if": sorted(ifs), "mm": sorted(mms)}
+    return {"cmp": sorted(cmps), "aug": sorted(augs), "if": sorted(ifs), "mm": sorted(mms),
+            "ifexp": sorted(ifexps), "ifstmt": sorted(ifstmts), "chain": sorted(chains), "while": sorted(whiles)}
 
 
 def _is_minmax2(n) -> bool:
@@ -846,6 +916,7 @@ def restore_spellings(tree: ast.Module, relpath: str) -> int:
         if not r:
             continue
         rc, ra, ri, rm = set(r["cmp"]), set(r["aug"]), set(r["if"]), set(r.get("mm", []))
+        rx, rs, rch, rw = set(r.get("ifexp", [])), set(r.get("ifstmt", [])), set(r.get("chain", [])), set(r.get("while", []))
 
         class T(ast.NodeTransformer):
             def visit_Compare(self, n):
@@ -879,6 +950,30 @@ def restore_spellings(tree: ast.Module, relpath: str) -> int:
                     if _txt(a) in ra and _txt(n) not in ra:
                         n_done += 1
                         return ast.copy_location(a, n)
+                return n
+
+            def visit_BoolOp(self, n):
+                nonlocal n_done
+                self.generic_visit(n)
+                # `a <= b and b < c` for the reference's chained `a <= b < c` (b a name or constant: evaluated twice without effect)
+                if isinstance(n.op, ast.And) and len(n.values) == 2 and all(isinstance(v, ast.Compare) and len(v.ops) == 1 for v in n.values) \
+                        and isinstance(n.values[1].left, (ast.Name, ast.Constant)) and ast.dump(n.values[0].comparators[0]) == ast.dump(n.values[1].left):
+                    ch = ast.Compare(left=n.values[0].left, ops=[n.values[0].ops[0], n.values[1].ops[0]], comparators=[n.values[0].comparators[0], n.values[1].comparators[0]])
+                    if _txt(ch) in rch:
+                        n_done += 1
+                        return ast.copy_location(ch, n)
+                return n
+
+            def visit_While(self, n):
+                nonlocal n_done
+                self.generic_visit(n)
+                # `while True:` / `if not c: break` / BODY for the reference's `while c: BODY`
+                if isinstance(n.test, ast.Constant) and n.test.value is True and not n.orelse and len(n.body) >= 2 and isinstance(n.body[0], ast.If) \
+                        and not n.body[0].orelse and len(n.body[0].body) == 1 and isinstance(n.body[0].body[0], ast.Break):
+                    neg = _negated(n.body[0].test)
+                    if neg is not None and _txt(neg) in rw:
+                        n_done += 1
+                        return ast.copy_location(ast.While(test=neg, body=n.body[1:], orelse=[]), n)
                 return n
 
             def visit_IfExp(self, n):
@@ -926,6 +1021,63 @@ def restore_spellings(tree: ast.Module, relpath: str) -> int:
                         return b[:i] + [new_if] + unswap(st.body)
             return b
         fn.body = unswap(fn.body)
+
+        # statement-level spellings of one conditional value: `if c: x = a` / `else: x = b`, and `if c: return a` / `return b`, for the
+        # reference's `x = a if c else b` / `return a if c else b` (the test occurs in the reference function only as a conditional
+        # expression); and `if not c: continue` / REST at the end of a loop body for the reference's `if c: REST`
+        def unstatement(b, in_loop):
+            nonlocal n_done
+            for st in b:
+                loop = isinstance(st, (ast.For, ast.While, ast.AsyncFor))
+                for fld in ("body", "orelse", "finalbody"):
+                    sub = getattr(st, fld, None)
+                    if isinstance(sub, list) and sub and isinstance(sub[0], ast.stmt) and not isinstance(st, (ast.FunctionDef, ast.AsyncFunctionDef, ast.ClassDef)):
+                        setattr(st, fld, unstatement(sub, (loop and fld == "body") or (in_loop and not loop and False)))
+                for h in getattr(st, "handlers", []) or []:
+                    h.body = unstatement(h.body, False)
+            out = []
+            i = 0
+            while i < len(b):
+                st = b[i]
+                if isinstance(st, ast.If):
+                    t = st.test
+                    neg = _negated(t)
+
+                    def pick(a_, b_):
+                        # the reference spells exactly this conditional expression (either orientation)?
+                        for cand in (ast.IfExp(test=t, body=a_, orelse=b_), ast.IfExp(test=neg, body=b_, orelse=a_) if neg is not None else None):
+                            if cand is not None and _txt(cand) in rx:
+                                return cand
+                        return None
+
+                    def one_assign(body):
+                        return len(body) == 1 and isinstance(body[0], ast.Assign) and len(body[0].targets) == 1 and isinstance(body[0].targets[0], ast.Name)
+                    if st.orelse and one_assign(st.body) and one_assign(st.orelse) and st.body[0].targets[0].id == st.orelse[0].targets[0].id:
+                        val = pick(st.body[0].value, st.orelse[0].value)
+                        if val is not None:
+                            out.append(ast.copy_location(ast.Assign(targets=st.body[0].targets, value=val, lineno=st.lineno), st))
+                            n_done += 1
+                            i += 1
+                            continue
+                    if not st.orelse and len(st.body) == 1 and isinstance(st.body[0], ast.Return) and st.body[0].value is not None \
+                            and i + 1 < len(b) and isinstance(b[i + 1], ast.Return) and b[i + 1].value is not None:
+                        val = pick(st.body[0].value, b[i + 1].value)
+                        if val is not None:
+                            out.append(ast.copy_location(ast.Return(value=val), st))
+                            n_done += 1
+                            i += 2
+                            continue
+                if in_loop and isinstance(st, ast.If) and not st.orelse and len(st.body) == 1 and isinstance(st.body[0], ast.Continue) and i + 1 < len(b) \
+                        and _txt(st.test) not in ri:
+                    neg = _negated(st.test)
+                    if neg is not None and _txt(neg) in rs:
+                        out.append(ast.copy_location(ast.If(test=neg, body=b[i + 1:], orelse=[]), st))
+                        n_done += 1
+                        break
+                out.append(st)
+                i += 1
+            return out
+        fn.body = unstatement(fn.body, False)
         ast.fix_missing_locations(fn)
     return n_done
 
